@@ -83,7 +83,7 @@ def run(ck):
     ck.coverage["tie"]["type_offset_pairs"] = len(pairs)
     try:
         from c14_c import run_c14_c           # C runtime (LE/BE builds) — provided by the C03 module
-        run_c14_c(ck, pairs, make_cases)
+        run_c14_c(ck, pairs if not ck.quick else pairs[::2], make_cases)   # quick: half of the slice
     except ImportError:
         ck.coverage["tie"]["c_runtime"] = "not merged yet"
     try:
